@@ -54,6 +54,9 @@ mut('C08', 'entries_files_sets_dirs', EN, "    pub fn files(mut self) -> Self {\
 mut('C08', 'memfs_dirs_depth_two', MV, "for entry in entries.min_depth(1).max_depth(1).sort_by_name().dirs() {", "for entry in entries.min_depth(1).max_depth(2).sort_by_name().dirs() {")
 mut('C08', 'files_flag_installs_is_dir', EN, "iter.filter = Some(Box::new(|x: &VfsEntry| -> bool { x.is_file() }));", "iter.filter = Some(Box::new(|x: &VfsEntry| -> bool { x.is_dir() }));")
 mut('C08', 'deferred_yield_unfiltered', EN, "                    match self.filtered(entry) {\n                        Some(entry) => return Some(Ok(entry)),\n                        None => continue, // None indicates filtered out so get another\n                    }", "                    return Some(Ok(entry));")
+mut('C08', 'depth_read_after_push', EN, "        let depth = self.iters.len(); // save depth before possible recursion\n\n", "", 1)
+mut('C08', 'depth_read_after_push', EN, "        // Return None if min depth marker is not satisfied\n        if depth < self.opts.min_depth {", "        // Return None if min depth marker is not satisfied\n        let depth = self.iters.len();\n        if depth < self.opts.min_depth {", 1)
+mut('C08', 'defer_before_min_depth', EN, "        // Return None if min depth marker is not satisfied\n        if depth < self.opts.min_depth {\n            return None;\n        }\n\n        // Defer directories as directed\n        if entry.is_dir() && self.opts.contents_first {\n            self.deferred.push(entry);\n            return None;\n        }\n", "        // Defer directories as directed\n        if entry.is_dir() && self.opts.contents_first {\n            self.deferred.push(entry);\n            return None;\n        }\n\n        // Return None if min depth marker is not satisfied\n        if depth < self.opts.min_depth {\n            return None;\n        }\n", 1)
 # ---- C10
 mut('C10', 'memfs_is_file_no_link_exclusion', MV, "            Some(entry) => !entry.is_symlink() && entry.is_file(),", "            Some(entry) => entry.is_file(),")
 mut('C10', 'memfs_readlink_no_guard', MV, "            if !entry.is_symlink() {\n                return Err(PathError::is_not_symlink(path).into());\n            }\n            Ok(entry.rel_buf())", "            Ok(entry.rel_buf())")
@@ -97,15 +100,23 @@ def main():
     if base:
         sys.exit('refusing: /repo/src has uncommitted changes')
     made = 0
+    groups = {}
     for prop, name, file, old, new, count in M:
-        p = os.path.join(REPO, file)
-        s = open(p).read()
-        if s.count(old) < 1:
-            print('ANCHOR NOT FOUND: %s/%s' % (prop, name))
-            continue
-        open(p, 'w').write(s.replace(old, new, count))
+        groups.setdefault((prop, name), []).append((file, old, new, count))
+    for (prop, name), edits in groups.items():
+        bad = False
+        for file, old, new, count in edits:          # several edits under one name make one mutant
+            p = os.path.join(REPO, file)
+            s = open(p).read()
+            if s.count(old) < 1:
+                print('ANCHOR NOT FOUND: %s/%s' % (prop, name))
+                bad = True
+                break
+            open(p, 'w').write(s.replace(old, new, count))
         d = subprocess.check_output(['git', '-C', REPO, 'diff', '--', 'src'], text=True)
         subprocess.check_call(['git', '-C', REPO, 'checkout', '--', 'src'])
+        if bad:
+            continue
         os.makedirs(os.path.join(OUT, prop), exist_ok=True)
         open(os.path.join(OUT, prop, name + '.patch'), 'w').write(d)
         made += 1
